@@ -11,7 +11,7 @@ def key_fn(case, obs, verdict):
         f = f[1:]
     why = verdict.replace("BAD:", "").split(" ")
     kind = f[0]
-    sub = f[1] if kind in ("ammo", "pfx", "trunc", "conv") else ""
+    sub = f[1] if kind in ("ammo", "pfx", "trunc", "badhdr", "conv") else ""
     site = why[0]
     what = "-".join(why[1:3])[:40]
     if hostile and what in ("outcome-oom", "outcome-hang", "outcome-crash"):
@@ -24,6 +24,12 @@ def what_fn(case, obs, verdict):
 
 
 def run(ctx):
+    # the extracted model recurses once per byte (non-tail): megabyte bodies need a deep stack
+    import resource
+    try:
+        resource.setrlimit(resource.RLIMIT_STACK, (resource.RLIM_INFINITY, resource.RLIM_INFINITY))
+    except (ValueError, OSError):
+        pass
     os.environ["A07_ORACLE"] = os.path.join(common.BIN, "hC13")
     common.standard(
         ctx, harness="hC13", extracted="C13_model", driver_dir="C13",
